@@ -303,6 +303,19 @@ theorem stat_register_tracks (r : RegSpec) (ms : List Msg) (ha : Alternates r.po
     Inv (truth r (micro r.point ms)) (r.run ms) :=
   register_inv r ms (fun _ => none) [] (inv_nil : Inv (fun _ => (none : Option Unit)) []) ha
 
+/-- The executable alternation check the correspondence run applies to every recorded real message stream
+    implies the hypothesis of `stat_register_tracks`. -/
+theorem alternatesB_sound (p : Point) (ms : List Msg) (cur : Nat → Option Facts)
+    (h : alternatesB p cur ms = true) : Alternates p cur ms := by
+  induction ms generalizing cur with
+  | nil => trivial
+  | cons m t ih =>
+    simp only [alternatesB, Bool.and_eq_true, Bool.or_eq_true, Bool.not_eq_true'] at h
+    refine ⟨fun hp ho => ?_, ih _ h.2⟩
+    rcases h.1 with h1 | h1
+    · rw [hp] at h1; cases h1
+    · simpa [ho] using h1
+
 /-- A `set.remove`-style handler (repairer registers) never raises: when a switch-off arrives for an item that is on and qualified, the register holds it. -/
 theorem strict_remove_present (r : RegSpec) (ms : List Msg) (m : Msg)
     (ha : Alternates r.point (fun _ => none) ms) (f : Facts)
